@@ -180,3 +180,19 @@ def fixture_check(tier):
 
 TASK = Task("alignment", FUNCS, pair_space, single_space)
 TASK.fixture_check = fixture_check
+
+
+# C08: a common time offset must not change the deviation statistics nor PCS in MIREX mode (duration=None);
+# the lattice is dyadic, so x + d is exact
+def _shift(state):
+    from fractions import Fraction as Fr
+    out = []
+    for d in (1 / 16.0, 1.0, 1000.0):
+        out.append(("+%g" % d, (tuple(float(Fr(x) + Fr(d)) for x in state[0]),
+                                tuple(float(Fr(x) + Fr(d)) for x in state[1]))))
+    return out
+
+
+TASK.edges = {"shift": {"apply": _shift, "funcs": ["alignment.absolute_error", "alignment.percentage_correct",
+                                                   "alignment.percentage_correct_segments",
+                                                   "alignment.karaoke_perceptual_metric"], "keys": None, "cfgs": [{}]}}
